@@ -63,7 +63,7 @@ def check_c13(ctx):
     mc = core.model_check(ctx, "SeqDiagramMC", "MCSeqDiagramSmall.cfg" if quick else "MCSeqDiagram.cfg", timeout=2400)
     gen = core.generate(ctx, "FrontendGen", "GenCalls.cfg", num=220 if quick else 3000, depth=400,
                         seed=ctx.seed * 100 + 13, timeout=2400)
-    scn = [{"id": i + 1, "decls": with_teams(complete(g["decls"]), i), "seed": ctx.seed, "starts": [], "text": False, "opts": i % 2 == 0, "mermaid": i % 3 == 0}
+    scn = [{"id": i + 1, "decls": with_teams(complete(g["decls"]), i), "seed": ctx.seed, "starts": [], "text": False, "opts": i % 2 == 0, "mermaid": i % 3 == 0, "project": i % 4 == 1}
            for i, g in enumerate(gen)]
     events, _ = core.vh_sharded(ctx, "seqdiag", scn, timeout=3000)
     # trace ids are per (program, start endpoint) and must be unique across shards
@@ -103,7 +103,11 @@ def check_c13(ctx):
             continue
         recursive_return = _recursion_with_return(b)
         sig = "C13/" + "+".join(names)
-        what = "start %s (blackboxes %s, grouping %s): %s; model %s" % (b["start"], b.get("cut"), b.get("group") or "off", names, json.dumps(b["eps"])[:600])
+        what = "start %s (blackboxes %s, grouping %s%s): %s; model %s" % (b["start"], b.get("cut"), b.get("group") or "off",
+                                                                        ", diagram %s of a project with blackboxes %s" % (b["project"], b.get("pcut")) if b.get("project") else "",
+                                                                        names, json.dumps(b["eps"])[:600])
+        if b.get("project"):
+            sig += "/project-diagram-%s" % ("with-own-blackbox" if b.get("cut") else "after-the-one-with-own-blackbox" if b["project"] > "SEQ-B" else "first")
         core.add_violation(ctx, sig, what, {"family": "seqdiag", "scenario": dict(by_scn[b["scn"]], starts=[b["start"]]),
                                             "trace": [e for e in traces[t] if e["e"] != "begin"][:60]})
     cov = {"states": mc.distinct, "transitions": mc.generated, "traces_validated_against_impl": len(begins),
